@@ -7,7 +7,7 @@ from vlib.driver import run_cases
 def main():
     a = parse_args("C08")
     chk = Check("C08", "other", a.tier)
-    names = [n for n in corpus.select("c08") if a.tier == "thorough" or "grid" not in corpus.REG[n]["tags"] or "q" in corpus.REG[n]["tags"]]  # LIA queries are cheap: everything but the generated grid in quick
+    names = [n for n in corpus.select("c08") if a.tier == "thorough" or not ({"grid", "ek"} & corpus.REG[n]["tags"]) or "q" in corpus.REG[n]["tags"]]  # LIA queries are cheap: everything but the generated grids (grid_*, ek_*) in quick
     if a.only:
         names = [n for n in names if n in a.only.split(",")]
     run_cases(chk, "vlib.kernelprops", "bounds", names, {"tier": a.tier}, a.jobs)
